@@ -352,6 +352,10 @@ func main() {
 		}
 		total.Merge(st)
 	}
+	if total.Diverged > 0 || total.Unreproducible > 0 {
+		r.Cap(fmt.Sprintf("%d executions diverged from their prefix and %d findings did not reproduce (uncaptured nondeterminism; nothing was concluded from them): %v", total.Diverged, total.Unreproducible, total.Notes))
+	}
+	r.Extra["c12b_diverged_executions"], r.Extra["c12b_unreproducible_findings"] = total.Diverged, total.Unreproducible
 	r.AddEval(total.Executions)
 	r.States += total.Points
 	r.Transitions += total.Steps
